@@ -122,6 +122,13 @@ def dropMoc (s : St) (i : Nat) : St × Out :=
     if c - 1 = 0 then (remove s i, .unit)
     else ({ s with slots := s.slots.set i (.occ (c - 1) v) }, .unit)
 
+/-- Typed drop (`drop_smoc / drop_tmoc / drop_fmoc / drop_stmoc`, repaired): the kind of the MOC is checked FIRST, under
+    the same write section; a mismatch is an error without effect, otherwise it is `drop`. -/
+def dropKind (s : St) (k i : Nat) : St × Out :=
+  match valueAt s i with
+  | none => (s, .err .notFound)
+  | some v => if v.kind = k then dropMoc s i else (s, .err .kind)
+
 /-- One call executed alone (what a sequential client observes). -/
 def step (s : St) : Call → St × Out
   | .add v => let r := insert s v; (r.1, .idx r.2)
